@@ -50,7 +50,31 @@ def make_env(seed, n):
         fam = W.random_dag(env, random.Random(seed), n)
     finally:
         pop_env()
+    fam.seed_n = (seed, n)
     return env, fam
+
+
+def foreign_formulas(fam):
+    """the same pool built in ANOTHER environment (formulas of a foreign manager), kept with the family"""
+    if getattr(fam, "foreign", None) is None:
+        fenv, ffam = make_env(*fam.seed_n)
+        fam.foreign = (fenv, ffam, aux_formulas(fenv, ffam))
+    return fam.foreign
+
+
+def foreign_clash(fam):
+    """a formula of a third environment in which `x` is a Real (here it is an Int): cannot be normalised; the clash is
+    below the root and has siblings, so that the failing walk leaves work behind"""
+    if getattr(fam, "clash", None) is None:
+        cenv = Environment()
+        m = cenv.formula_manager
+        x = m.Symbol("x", types.REAL)
+        r = m.Symbol("r", types.REAL)
+        p0, p1 = m.Symbol("p0"), m.Symbol("p1")
+        y = m.Symbol("y", types.INT)
+        fam.clash = (cenv, m.And(m.Or(p0, m.LE(y, m.Int(3))), m.Or(m.LT(m.Plus(x, r), r), p1), m.Not(p0),
+                                 m.Iff(p1, m.LT(r, x))))
+    return fam.clash[1]
 
 
 def outcome(fn):
@@ -121,6 +145,21 @@ def probes(env, fam, parser=None):
     res.append(("nnf", lambda: rewritings.nnf(m.Not(F[0]), env)))
     res.append(("aig", lambda: rewritings.aig(F[2], env)))
     res.append(("prenex", lambda: rewritings.prenex_normal_form(F[1], env)))
+    res.append(("cnf", lambda: rewritings.cnf(F[2], env)))
+    # formulas of a foreign environment: normalize, and the shortcuts that normalise their argument
+    # (expensive: a second environment and the solver factory; run for the scenarios that ask for it)
+    if getattr(fam, "want_foreign", False):
+        FF = foreign_formulas(fam)[2]
+        for i in (0, 2, 3, 1):
+            res.append(("normalize_foreign%d" % i, lambda i=i: m.normalize(FF[i])))
+        res.append(("normalize_is_own", lambda: m.normalize(FF[0]) is F[0]))
+
+        def via_shortcut(fn, *a, **kw):
+            import pysmt.shortcuts as sc
+            return getattr(sc, fn)(*a, **kw)
+        res.append(("shortcut_is_sat_foreign", lambda: via_shortcut("is_sat", FF[2])))
+        res.append(("shortcut_simplify_foreign", lambda: via_shortcut("simplify", FF[3])))
+    res.append(("size_valid", lambda: env.sizeo.get_size(F[0], measure=1)))
     res.append(("build_and", lambda: m.And(F[0], m.Not(F[1]), F[2])))
     res.append(("build_plus", lambda: m.LE(m.Plus(P["i"][-1], x, m.Int(3)), m.Times(m.Int(2), y))))
     res.append(("build_ill_again", lambda: m.Plus(x, r)))
@@ -152,8 +191,10 @@ ENV_WALKERS = ["simplifier", "substituter", "fvo", "ao", "qfo", "typeso", "theor
 def leftovers(env):
     """independent oracle: no walker of the environment keeps work of a failed call"""
     bad = []
-    for name in ENV_WALKERS:
-        w = getattr(env, name)
+    walkers = [(name, getattr(env, name)) for name in ENV_WALKERS]
+    if getattr(env.formula_manager, "_normalizer", None) is not None:
+        walkers.append(("formula_manager._normalizer", env.formula_manager._normalizer))
+    for name, w in walkers:
         if len(w.stack) != 0:
             bad.append((name, "stack", len(w.stack)))
         if w.invalidate_memoization and len(w.memoization) != 0:
@@ -215,6 +256,11 @@ def repeats_of(env, fam, kind, th):
     return reps + extra.get(kind, [])
 
 
+def _sc(fn, *a, **kw):
+    import pysmt.shortcuts as sc
+    return getattr(sc, fn)(*a, **kw)
+
+
 def natural_failures(env, fam, rng):
     """[(kind, thunk)] -- calls that raise on their own"""
     m = env.formula_manager
@@ -259,6 +305,22 @@ def natural_failures(env, fam, rng):
         ("callback:pow-zero-neg", lambda: m.And(deep, m.LT(m.Pow(m.Ite(p0, m.Real(0), m.Real(0)), m.Real(-1)), r)).simplify()),
         ("callback:cnf-quantifier", lambda: rewritings.cnf(m.And(deep, m.ForAll([x], m.LE(x, y))), env)),
         ("unsupported:partial-walker", lambda: Partial(env, [op.LE, op.BV_ULE, op.EQUALS, op.LT]).walk(deep)),
+        # an optional / enumerated argument with an INVALID value (asked again by `repeats_of`)
+        ("invalid:size-measure-6", lambda: env.sizeo.get_size(deep, measure=6)),
+        ("invalid:size-measure-neg", lambda: deep.size(-1)),
+        ("invalid:size-measure-str", lambda: deep.size("dag")),
+        ("invalid:get_formula_size", lambda: _sc("get_formula_size", F[2], measure=17)),
+        ("invalid:solver-name", lambda: _sc("is_sat", F[1], solver_name="no_such_solver")),
+        ("invalid:logic-name", lambda: _sc("is_sat", F[1], logic="NO_SUCH_LOGIC")),
+        ("invalid:get_model-solver", lambda: _sc("get_model", F[1], solver_name="no_such_solver")),
+        ("invalid:qelim-solver", lambda: _sc("qelim", F[1], solver_name="no_such_qe")),
+        ("invalid:logic-by-name", lambda: __import__("pysmt.logics").logics.get_logic_by_name("QF_NOPE")),
+        ("invalid:factory-solver", lambda: env.factory.Solver(name="no_such_solver")),
+        ("invalid:script-logic", lambda: smtlibscript_from_formula(F[1], logic="QF_NOPE")),
+        # a formula of another environment that cannot be brought into this one (name clash with another type)
+        ("foreign:normalize-clash", lambda: m.normalize(foreign_clash(fam))),
+        ("foreign:is_sat-clash", lambda: _sc("is_sat", foreign_clash(fam))),
+        ("foreign:simplify-clash", lambda: _sc("simplify", foreign_clash(fam))),
     ]
 
     def stc_inject():
@@ -280,7 +342,6 @@ def walker_specs():
 # ----------------------------------------------------------------------------------------------
 def scenario_natural(ctx, seed, n, ref_cache, stats, only=None):
     env, fam = make_env(seed, n)
-    ref = reference(seed, n, ref_cache)
     push_env(env)
     try:
         fails = natural_failures(env, fam, ctx.rng)
@@ -288,6 +349,8 @@ def scenario_natural(ctx, seed, n, ref_cache, stats, only=None):
         pop_env()
     pick = ctx.rng.randrange(len(fails)) if only is None else [i for i, f in enumerate(fails) if f[0] == only][0]
     kind, th = fails[pick]
+    fam.want_foreign = kind.startswith(("foreign:", "invalid:")) or ctx.rng.random() < 0.1
+    ref = reference(seed, n, ref_cache, fam.want_foreign)
     push_env(env)
     try:
         k, v = outcome(th)
@@ -302,7 +365,7 @@ def scenario_natural(ctx, seed, n, ref_cache, stats, only=None):
     replay = {"fail": kind, "seed": seed, "n": n}
     sig = {"fail": kind.split(":")[0], "call": kind}
     # the same content again (same call, swapped derived constructor, parser): as on an untouched twin
-    rkey = (seed, n, pick)
+    rkey = ("repeat", seed, n, pick)
     if rkey not in ref_cache:
         tenv, tfam = make_env(seed, n)
         push_env(tenv)
@@ -326,10 +389,11 @@ def outcome_key(th):
     return (k, W.result_key(v, ac=False) if k == "ok" else v)
 
 
-def reference(seed, n, ref_cache):
-    key = (seed, n)
+def reference(seed, n, ref_cache, foreign=False):
+    key = ("ref", seed, n, foreign)
     if key not in ref_cache:
         tenv, tfam = make_env(seed, n)
+        tfam.want_foreign = foreign
         r = run_probes(tenv, tfam)
         ref_cache[key] = (keys_of(r, False), keys_of(r, True))
     return ref_cache[key]
@@ -347,6 +411,17 @@ def judge(ctx, env, fam, ref, replay, sig, stats, parser=None):
     if exact != ref[0]:
         ac = keys_of(got, True)
         stats["ac_fallback"] += 1
+        if ac == ref[1] and not stats.get("order_only_reported"):
+            # "exactly" in the property: a difference in the order of commutative arguments / in fresh names only
+            stats["order_only_reported"] = True
+            for (n1, k1, v1), (n2, k2, v2) in zip(exact, ref[0]):
+                if (k1, v1) != (k2, v2):
+                    ctx.report_s({"oracle": "order-or-fresh-names-only", "fail": sig.get("fail"),
+                                  "probe": n1.rstrip("0123456789_")},
+                                 "after the failing call %s the probe %s returns a formula that differs from the twin's "
+                                 "only in the order of commutative arguments or in the names of fresh symbols" % (
+                                     replay.get("fail"), n1), dict(replay, probe=n1))
+                    break
         if ac != ref[1]:
             for (n1, k1, v1), (n2, k2, v2) in zip(ac, ref[1]):
                 if (k1, v1) != (k2, v2):
@@ -549,6 +624,18 @@ COMMAND_SEQS += [
      "uses-leaked-binder"),
     ("assignment-list-bad", Y, "@assign:((y 3) (zz", ["(assert (> y 0))", "@assign:((y 4))"], "plain"),
     ("assignment-list-bad-let", Y, "@assign:((y (let ((t 1)) (+ t zz))))", ["(assert (> t y))"], "uses-leaked-binder"),
+    # truncated / unterminated assignment lists (the answer of a solver that died): the environment's symbols, which
+    # get_assignment_list binds while it reads, must be unbound again
+    ("assignment-list-truncated", Y, "@assign:((y 1) (envx ",
+     ["(assert (> envx 0))", "(assert (let ((envx 1) (zq (+ envx 1))) (> zq y)))", "(assert envb)", "@assign:((envx 2))"],
+     "uses-leaked-binder"),
+    ("assignment-list-truncated2", Y, "@assign:((y 1",
+     ["(assert (and envb (> envx 0)))", "@assign:((envx 2) (y 3))", "(assert (> envx y))"], "uses-leaked-binder"),
+    ("assignment-list-truncated3", Y, "@assign:(", ["(assert (> envx 0))", "(assert (forall ((envx Bool)) envx))"],
+     "uses-leaked-binder"),
+    ("assignment-list-no-paren", Y, "@assign:((y 1) envx)", ["(assert (> envx 0))", "(assert envb)"], "uses-leaked-binder"),
+    ("assignment-list-bad-term-env", Y, "@assign:((envx (+ envx zz)))", ["(assert (> envx 0))"], "uses-leaked-binder"),
+    ("get-value-unterminated", Y, "(get-value ((+ y 1)", ["(assert (> envx 0))", "(get-value (y))"], "plain"),
     # a failing quantified assertion has already created the symbols of its bound variables in the manager
     ("quantifier-symbol-leak", Y, "(assert (forall ((w Int)) zz))", ["(declare-fun w () Real)"], "declare-other-sort"),
 ]
@@ -564,6 +651,9 @@ def scenario_commands(ctx, idx, stats):
         env = Environment()
         push_env(env)
         try:
+            # symbols of the ENVIRONMENT that the parser object never declared
+            env.formula_manager.Symbol("envx", types.INT)
+            env.formula_manager.Symbol("envb", types.BOOL)
             parser = SmtLibParser(env)
             out, norm = [], []
 
@@ -921,7 +1011,8 @@ def run(ctx):
                                      "DagWalker keeps %s stack entries after an injected exception" % o["st"], {"req": req})
                     break
     ctx.extra["ac_fallbacks"] = stats["ac_fallback"]
-    ctx.sample({"pool_seed": pools[0][0], "n": pools[0][1], "probes": len(ref_cache[pools[0]][0]) if pools[0] in ref_cache else 0})
+    k0 = ("ref", pools[0][0], pools[0][1], False)
+    ctx.sample({"pool_seed": pools[0][0], "n": pools[0][1], "probes": len(ref_cache[k0][0]) if k0 in ref_cache else 0})
     if reqs:
         ctx.sample({"failing": reqs[0][2], "request": reqs[0][0][:300],
                     "observed": {k: reqs[0][1][k] for k in ("out", "c", "st", "m", "p", "i")}})
